@@ -91,6 +91,26 @@ def normalize_results(S, fmap=None):
     return norm
 
 
+def _commute_writes(effs):
+    """Consecutive plain field writes (nothing that could observe them in between) to different fields commute:
+    order each such run by field name (stable, so two writes of one field keep their order)."""
+    out, run = [], []
+    for e in effs:
+        if e[0] == "write":
+            if run and run[0][1] != e[1]:
+                out.extend(sorted(run, key=lambda x: str(x[3])))
+                run = []
+            run.append(e)
+        else:
+            if run:
+                out.extend(sorted(run, key=lambda x: str(x[3])))
+                run = []
+            out.append(e)
+    if run:
+        out.extend(sorted(run, key=lambda x: str(x[3])))
+    return out
+
+
 class Need(Exception):
     """evaluation consulted a condition the current partial assignment does not decide"""
 
@@ -263,7 +283,7 @@ class Behaviour(object):
                 effs.append(("raise", loops, e.exc))
         if ret is None:
             ret = ("raise",) if any(k == "raise" for k, *_ in effs) else ("?",)
-        return ret, effs
+        return ret, _commute_writes(effs)
 
     def _holds(self, x, g):
         for a, p in x.guard:
